@@ -10,6 +10,7 @@ import (
 	"errors"
 	"fmt"
 	"io"
+	"log"
 	"os"
 	"strings"
 	"time"
@@ -153,6 +154,54 @@ func partWriters(run *ev.Run) (evals int, distinct map[string]bool) {
 			}
 		}
 		done()
+	}
+	return
+}
+
+// partBridgeContent drives the std-log bridge through the log.Logger API, whose
+// internal buffer is recycled between calls: every message must arrive intact
+// and stay intact while later calls reuse that buffer (io.Writer: "Write must
+// not modify the slice data, even temporarily. Implementations must not retain p").
+func partBridgeContent(run *ev.Run) (evals int) {
+	msgs := []string{"first", "second message, rather longer than the first one", "3rd", strings.Repeat("m", 300)}
+	type mk struct {
+		name string
+		mk   func(l *zap.Logger) (*log.Logger, func())
+	}
+	mks := []mk{
+		{"NewStdLog", func(l *zap.Logger) (*log.Logger, func()) { return zap.NewStdLog(l), func() {} }},
+		{"NewStdLogAt(warn)", func(l *zap.Logger) (*log.Logger, func()) {
+			sl, err := zap.NewStdLogAt(l, zap.WarnLevel)
+			if err != nil {
+				ev.ToolError("NewStdLogAt: %v", err)
+			}
+			return sl, func() {}
+		}},
+		{"RedirectStdLog", func(l *zap.Logger) (*log.Logger, func()) { undo := zap.RedirectStdLog(l); return log.Default(), undo }},
+	}
+	for _, m := range mks {
+		// every ordered selection of 3 messages (with repetition)
+		for a := range msgs {
+			for b := range msgs {
+				for c := range msgs {
+					evals++
+					core, logs := observer.New(zap.DebugLevel)
+					sl, undo := m.mk(zap.New(core))
+					want := []string{msgs[a], msgs[b], msgs[c]}
+					sl.Print(want[0])
+					sl.Printf("%s", want[1])
+					sl.Println(want[2])
+					undo()
+					var got []string
+					for _, e := range logs.All() {
+						got = append(got, e.Message)
+					}
+					if strings.Join(got, "\x00") != strings.Join(want, "\x00") {
+						run.Report("writer:stdlog-bridge:content:"+m.name, fmt.Sprintf("%s: Print/Printf/Println of %q logged %q", m.name, want, got), map[string]any{"bridge": m.name, "messages": want, "logged": got})
+					}
+				}
+			}
+		}
 	}
 	return
 }
@@ -540,6 +589,7 @@ func main() {
 	}
 	e1, d1 := partWriters(run)
 	e2 := partRelays(run)
+	e2 += partBridgeContent(run)
 	e3, d3 := partMulti(run, maxK)
 
 	var items []string
